@@ -196,7 +196,10 @@ func sortInts(a []int) {
 // dochan lets the parked request i pass the gate: it joins the flight in progress under its key or
 // becomes the leader of a new one (then its loader starts, or CS2 answers from the cache).
 func (s *sched) dochan(i int) {
-	gate := s.gates[i]
+	gate, isParked := s.gates[i]
+	if !isParked || s.hung != "" {
+		return // the request was answered in CS1 (fixed scripts do not know in advance)
+	}
 	delete(s.gates, i)
 	s.events = append(s.events, lib.App("EDoChan", lib.N(uint64(i))))
 	s.desc = append(s.desc, map[string]any{"ev": "dochan", "req": i, "flightKey": s.keyOf[i]})
@@ -234,6 +237,9 @@ func (s *sched) complete(f int, ok bool) {
 		if x.leader == f {
 			key, fl = k, x
 		}
+	}
+	if fl == nil || s.hung != "" {
+		return // f leads no fetch (it joined another flight or was answered from the cache)
 	}
 	s.events = append(s.events, lib.App("EComplete", lib.N(uint64(f)), lib.Bool(ok)))
 	s.desc = append(s.desc, map[string]any{"ev": "complete", "leader": f, "ok": ok, "members": fl.members})
@@ -324,7 +330,7 @@ func runSched(out *lib.Out, r *lib.Rng, script func(s *sched, r *lib.Rng)) {
 		tags = append(tags, "has-reset")
 	}
 	out.Add(lib.App("CSched", lib.List(s.events), lib.List(resp), lib.ListOf(fet, lib.N)),
-		map[string]any{"kind": "sched", "events": s.desc, "answers": s.answers, "fetches": s.fetches},
+		map[string]any{"kind": "sched", "events": s.desc, "answers": resp, "fetches": s.fetches},
 		hits > 0, tags...)
 }
 
